@@ -14,7 +14,7 @@ from typing import Any, BinaryIO
 import numpy as np
 import scipp as sc
 
-from .._files import open_or_pass
+from .._files import is_file_object, open_or_pass
 from . import _ir as ir
 from ._bytes import Byteorder
 from ._low_level_io import LowLevelSqw
@@ -72,7 +72,7 @@ class SqwBuilder:
     ) -> None:
         self._path = path
         self._stored_path = (
-            None if isinstance(self._path, BinaryIO | BytesIO) else Path(self._path)
+            None if is_file_object(self._path) else Path(self._path)
         )
         self._byteorder = byteorder
         self._n_dims = 0
